@@ -13,3 +13,155 @@ def obligations(ctx, cfg):
             StepPull(ctx, 1, nb, 0, 'notify', 'C06.a-pull'),
             StepModify(ctx, no, 2, k, 'notify', 'C06.a-modify'),
             StepExpire(ctx, no, 2, 0, 'notify', 'C06.a-expire')]
+
+
+# ---------------------------------------------------------------------- C06.d: the check-then-wait race (Tier 4)
+import z3
+from framework import Obligation, Claim, Cover, model_value
+from values import *
+from interp import Interp, run_to_end
+from t4 import NotifyT4, Activity, run_activities, future_activity
+from models_core import ok
+from models_async import OneshotTx, Leaf
+from models_sync import ArcCell, ArcTok
+from models_str import StrTok
+from framework import find_values
+from props.service import sym_managers, abstract_name_parsers, proto, request, start_handler
+
+
+class PullRace(Obligation):
+    tier = 'T4'
+
+    def __init__(self, ctx, consumers=1, events=('post',)):
+        self.consumers, self.events = consumers, events
+        self.id = 'C06.d-%dc-%s' % (consumers, '+'.join(events))
+        self.desc = ('%d blocked unary Pull handler(s) (real handler MIR incl. select!) interleaved at every shared operation (signal creation, '
+                     'mailbox send, signal poll) with %s handled atomically by the actor: no consumer is left parked while the backlog is non-empty'
+                     % (consumers, ' and '.join(events)))
+        self.bounds = {'consumers': consumers, 'events': list(events), 'backlog_before': '<= 1', 'granularity': 'Notify call / mailbox send / actor step'}
+        self.max_paths = 200000
+        self.unroll = 8
+
+    def body(self, ip, p):
+        ctx = ip.ctx
+        install_tokens(ctx)
+        p.timers_never_fire = True
+        st = sym_actor(ctx, p, 1, 1, deleted=False)
+        # one shared observer (the consumers' signal and the actor's notify are the same Notify)
+        notify = NotifyT4('messages_available')
+        obs_cell = Cell(mk(ctx, 'SubscriptionObserver', notify_messages_available=notify,
+                           deleted_recv=Leaf('deleted', 0), deleted_send=Opaque('deleted_send')), 'shared-observer')
+        a = st.cell.v
+        order = ctx.src.struct_fields('SubscriptionActor')
+        fs = list(a.fields)
+        fs[order.index('observer')] = ArcCell(obs_cell)
+        st.cell.v = Agg(a.name, fs)
+        default_sub = ctx.tok_kinds['Subscription']
+
+        def sub_pointee(ip_, tok):
+            v = default_sub(ip_, tok)
+            o = ctx.src.struct_fields('Subscription', 'subscriptions/subscription')
+            f2 = list(v.fields)
+            f2[o.index('observer')] = ArcCell(obs_cell)
+            return Agg(v.name, f2)
+        ctx.tok_kinds['Subscription'] = sub_pointee
+        h = sym_managers(ctx, p)
+        U = ctx.tok_ufs
+        stok = h['subs'][0][1]
+        p.assume(h['subs'][0][0])
+        actor_ip = Interp(ctx, p, unroll=8)       # actor steps are atomic: no scheduling points inside
+
+        def on_enqueue(ip_, sender, req):
+            ev = ip_.src.enum_variants('SubscriptionRequest')
+            variant = ev[req.discr][0]
+            if variant != 'PullMessages':
+                raise Unsupported('unexpected request %s' % variant)
+            mx, tx = req.payload[req.discr]
+            r = run_to_end(actor_ip.call_fn(ctx.fn('SubscriptionActor', 'pull_messages'), [Ref(Loc(st.cell), True), mx]))
+            replies = getattr(p, 'replies', {})
+            replies[tx.cid] = r
+            p.replies = replies
+        ctx.on_enqueue = on_enqueue
+        acts = []
+        for c in range(self.consumers):
+            cip = Interp(ctx, p, unroll=8)
+            regname = mk(ctx, 'SubscriptionName', project_id=StrTok(U['sub_proj'](stok)), subscription_id=StrTok(U['sub_id'](stok)))
+            cip.hooks[r'^parse_subscription_name$'] = lambda ip_, callee, args, regname=regname: (ok(regname),)
+            mx = p.fresh('max_messages%d' % c)
+            p.assume(z3.And(mx >= 1, mx < (1 << 31)))
+            req = proto(ctx, 'PullRequest', subscription=StrTok(p.fresh('name_field')), return_immediately=S(z3.BoolVal(False), 'bool'),
+                        max_messages=S(mx, 'i32'))
+            fut = start_handler(cip, p, 'subscriber', 'pull', h['subscriber'], request(req))
+            act = Activity('consumer%d' % c, cip)
+            cip.activity = act
+            act.gen = future_activity(act, Loc(Cell(fut, 'pull-future')), max_polls=8)
+            acts.append(act)
+        added = []
+        for i, evk in enumerate(self.events):
+            eip = Interp(ctx, p, unroll=8)
+            act = Activity('%s%d' % (evk, i), eip)
+            tok = p.fresh('new_tok%d' % i)
+            for d in st.ds:
+                p.assume(tok != d.tok)
+            for b in st.btoks:
+                p.assume(tok != b)
+            for t0 in added:
+                p.assume(tok != t0)
+            added.append(tok)
+
+            def gen(act=act, tok=tok):
+                p.effect('op', act.name, 'actor handles PostMessages')
+                yield ('sched', 'post')
+                run_to_end(actor_ip.call_fn(ctx.fn('SubscriptionActor', 'post_messages'),
+                                            [Ref(Loc(st.cell), True), Seq([ArcTok(tok, 'TopicMessage')], 1, 'vec')]))
+                return None
+            act.gen = gen()
+            acts.append(act)
+        # the name each consumer asks for is the registered subscription
+        for a_ in acts:
+            try:
+                next(a_.gen)
+            except StopIteration as e:
+                a_.state = 'done'
+                a_.result = e.value
+        steps = run_activities(p, acts)
+        return {'st': st, 'acts': acts, 'stok': stok, 'notify': notify}
+
+    def post(self, ip, p, res):
+        ctx = ip.ctx
+        st, acts = res['st'], res['acts']
+        f = actor_fields(ctx, st.cell.v)
+        consumers = acts[:self.consumers]
+        out = [Claim('every availability event was handled', all(a.state == 'done' for a in acts[self.consumers:]))]
+        parked = [a for a in consumers if a.state == 'parked']
+        done = [a for a in consumers if a.state == 'done']
+        for a in consumers:
+            out.append(Claim('%s is done or parked at the end of the schedule' % a.name, a.state in ('done', 'parked')))
+        if parked:
+            out.append(Claim('no consumer is left waiting while a message is available (and no wake-up is pending)',
+                             z3.Or(f['backlog'].n == 0, z3.BoolVal(res['notify'].permit))))
+            out.append(Cover('a consumer is still parked at the end (nothing left for it)'))
+        for a in done:
+            r = a.result
+            if isinstance(r, Enum) and r.name == 'Result' and isinstance(r.discr, int) and r.discr == 0:
+                resp = r.payload[0][0].fields[0]
+                order = ctx.src.struct_fields('PullResponse', 'pubsub_proto_generated')
+                msgs = resp.fields[order.index('received_messages')]
+                out.append(Claim('%s returned a non-empty response (no return_immediately, timer not fired)' % a.name, msgs.n >= 1))
+        if done:
+            out.append(Cover('a consumer was woken by the event and returned', any(a.polls >= 2 for a in done)))
+            out.append(Cover('a consumer found the message on its first pull', any(a.polls == 1 for a in done)))
+        return out
+
+    def model_info(self, p, m, res):
+        return {'class': 'lost-wakeup', 'schedule': [(e[1], e[2]) for e in p.log if e[0] == 'op']}
+
+
+_old_c06 = obligations
+
+
+def obligations(ctx, cfg):
+    obs = _old_c06(ctx, cfg) + [PullRace(ctx, 1, ('post',))]
+    if cfg['tier'] == 'thorough':
+        obs += [PullRace(ctx, 1, ('post', 'post')), PullRace(ctx, 2, ('post',))]
+    return obs
